@@ -290,6 +290,11 @@ func recordC17(env *Env) {
 				for i := 13; i <= hdr+3; i++ { // every cut inside the optional header fields
 					add(i)
 				}
+				for _, m := range members { // cuts inside the header of every later member, and just after it
+					add(m + 3)
+					add(m + 9)
+					add(m + 14)
+				}
 				k := per
 				if b.tag == "big" {
 					k = per / 4
@@ -313,6 +318,11 @@ func recordC17(env *Env) {
 				}
 				if codec == "gz" {
 					f.Pgz = pgzipVerdict(cdata[:t])
+				}
+				for _, m := range members {
+					if t > m && t < m+10 {
+						f.Variant = "membershdrcut" // the cut falls inside the 10-byte header of a later member
+					}
 				}
 				emit(f, cdata[:t])
 			}
